@@ -26,8 +26,20 @@ def readNearest (A : Img Int) (p : List Int) : Int :=
 def erodeAt (dt : DT) (A : Img Int) (sup : List (List Int × Int)) (p : List Int) : Int :=
   sup.foldl (fun v kh => min v (erodeSub dt (readNearest A (addPos p kh.1)) kh.2)) dt.hi
 
+/-- `erode<T>` at one pixel as the inner loop is written, with the early exit
+    `if (value == std::numeric_limits<T>::min()) break;` (an empty element gives the dtype maximum,
+    which is also what the `if (!N2)` branch fills in). -/
+def erodeAtExit (dt : DT) (A : Img Int) (sup : List (List Int × Int)) (p : List Int) : Int :=
+  go sup dt.hi
+where
+  go : List (List Int × Int) → Int → Int
+    | [], v => v
+    | kh :: t, v =>
+      let v' := min v (erodeSub dt (readNearest A (addPos p kh.1)) kh.2)
+      if v' = dt.lo then v' else go t v'
+
 def erodeModel (dt : DT) (A : Img Int) (sup : List (List Int × Int)) : Array Int :=
-  ((allPos A.shape).map (erodeAt dt A sup)).toArray
+  ((allPos A.shape).map (erodeAtExit dt A sup)).toArray
 
 /-- membership test of the specification: for bool images a non-zero entry, otherwise any entry
     different from the dtype minimum ("an entry equal to the dtype's smallest value means not in the element") -/
@@ -124,6 +136,44 @@ def fastErodeAt (A : Img Int) (bshape : List Nat) (bc : Array Int) (p : List Int
     if r then 1 else 0
   | _, _ => 0
 
+/-! the erosion branch as the row loops are written -/
+
+/-- `out[j] &= b` on a 0/1 cell of the flat output -/
+def andInto (res : Array Int) (j : Nat) (b : Int) : Array Int :=
+  res.setIfInBounds j (if res.getD j 0 != 0 && b != 0 then 1 else 0)
+
+/-- the row `y + dy` after `if ((y + dy) < 0) dy = -y; if ((y + dy) >= Ny) dy = -y+(Ny-1);` -/
+def fastRow (Ny y : Nat) (dy : Int) : Nat :=
+  let dy : Int := if (y : Int) + dy < 0 then -(y : Int) else dy
+  let dy : Int := if (y : Int) + dy ≥ Ny then -(y : Int) + ((Ny : Int) - 1) else dy
+  ((y : Int) + dy).toNat
+
+/-- one (row, offset) pass of the erosion branch: `orow`/`irow` are the flat starts of the output row
+    `res.data(y)` and of the input row `array.data(y + dy)`; a border loop of `|dx|` iterations ANDs the
+    replicated edge pixel into the far columns, then the main loop of `n = Nx − |dx|` iterations walks
+    the two (shifted) row pointers. -/
+def fastErodeRow (data : Array Int) (Nx orow irow : Nat) (dx : Int) (res : Array Int) : Array Int :=
+  let n := Nx - dx.natAbs
+  if dx > 0 then
+    let res := (List.range dx.toNat).foldl (fun res i =>
+      andInto res (orow + (Nx - i - 1)) (data.getD (irow + (Nx - 1)) 0)) res
+    (List.range n).foldl (fun res i => andInto res (orow + i) (data.getD (irow + dx.toNat + i) 0)) res
+  else if dx < 0 then
+    let res := (List.range (-dx).toNat).foldl (fun res i => andInto res (orow + i) (data.getD irow 0)) res
+    (List.range n).foldl (fun res i => andInto res (orow + (-dx).toNat + i) (data.getD (irow + i) 0)) res
+  else
+    (List.range n).foldl (fun res i => andInto res (orow + i) (data.getD (irow + i) 0)) res
+
+/-- erosion branch of `fast_binary_dilate_erode_2d`, loop by loop (rows, offsets, border loop, main loop). -/
+def fastErodeLoops (A : Img Int) (bshape : List Nat) (bc : Array Int) : Array Int :=
+  match A.shape with
+  | [Ny, Nx] =>
+    let init : Array Int := if centreSet bshape bc then A.data else Array.replicate A.size 1
+    (List.range Ny).foldl (fun res y =>
+      (fastPositions Nx bshape bc true).foldl (fun res d =>
+        fastErodeRow A.data Nx (y * Nx) (fastRow Ny y d.1 * Nx) d.2 res) res) init
+  | _ => A.data
+
 /-- dilation branch (as repaired: scatter with clamp, like the generic kernel). -/
 def fastDilate (A : Img Int) (bshape : List Nat) (bc : Array Int) : Array Int :=
   match A.shape with
@@ -135,6 +185,38 @@ def fastDilate (A : Img Int) (bshape : List Nat) (bc : Array Int) : Array Int :=
       | [y, x] => (fastPositions Nx bshape bc true).foldl (fun out d =>
             out.setIfInBounds (ravelI A.shape (clampPos A.shape [y + d.1, x + d.2])) 1) out
       | _ => out) init
+  | _ => A.data
+
+/-! the dilation branch as the row loops are written -/
+
+/-- `out[j] |= b` on a 0/1 cell of the flat output -/
+def orInto (res : Array Int) (j : Nat) (b : Int) : Array Int :=
+  res.setIfInBounds j (if res.getD j 0 != 0 || b != 0 then 1 else 0)
+
+/-- one (row, offset) pass of the dilation branch: `orow` is the flat start of the output row
+    `res.data(y + dy)`, `irow` of the input row `array.data(y)`; the border loop of `|dx|` iterations ORs
+    the pixels that would leave the image into the edge cell, then the main loop of `n = Nx − |dx|`
+    iterations walks the two (shifted) row pointers. -/
+def fastDilateRow (data : Array Int) (Nx orow irow : Nat) (dx : Int) (res : Array Int) : Array Int :=
+  let n := Nx - dx.natAbs
+  if dx > 0 then
+    let res := (List.range dx.toNat).foldl (fun res i =>
+      orInto res (orow + (Nx - 1)) (data.getD (irow + (Nx - i - 1)) 0)) res
+    (List.range n).foldl (fun res i => orInto res (orow + dx.toNat + i) (data.getD (irow + i) 0)) res
+  else if dx < 0 then
+    let res := (List.range (-dx).toNat).foldl (fun res i => orInto res orow (data.getD (irow + i) 0)) res
+    (List.range n).foldl (fun res i => orInto res (orow + i) (data.getD (irow + (-dx).toNat + i) 0)) res
+  else
+    (List.range n).foldl (fun res i => orInto res (orow + i) (data.getD (irow + i) 0)) res
+
+/-- dilation branch of `fast_binary_dilate_erode_2d` (as repaired), loop by loop. -/
+def fastDilateLoops (A : Img Int) (bshape : List Nat) (bc : Array Int) : Array Int :=
+  match A.shape with
+  | [Ny, Nx] =>
+    let init : Array Int := if centreSet bshape bc then A.data else Array.replicate A.size 0
+    (List.range Ny).foldl (fun res y =>
+      (fastPositions Nx bshape bc true).foldl (fun res d =>
+        fastDilateRow A.data Nx (fastRow Ny y d.1 * Nx) (y * Nx) d.2 res) res) init
   | _ => A.data
 
 /-! ### `get_structuring_elem` for `None`/integer arguments, and `disk` -/
@@ -167,14 +249,16 @@ def handle (a : Args) : String :=
     let spec := (allPos shape).map (erodeSpecAt dt A sup)
     let model := (erodeModel dt A sup).toList
     let fast := if dt.isBool && shape.length == 2 then (allPos shape).map (fastErodeAt A bshape bc) else model
-    s!"spec={showInts spec} model={showInts model} fast={showInts fast}"
+    let loops := if dt.isBool && shape.length == 2 then (fastErodeLoops A bshape bc).toList else model
+    s!"spec={showInts spec} model={showInts model} fast={showInts fast} loops={showInts loops}"
   | "dilate" =>
     let spec := (allPos shape).map (dilateSpecAt dt A sup)
     let model := (dilateModel dt A sup).toList
     let fast := if dt.isBool && shape.length == 2 then (fastDilate A bshape bc).toList else model
+    let loops := if dt.isBool && shape.length == 2 then (fastDilateLoops A bshape bc).toList else model
     let regular := starShaped bshape (members.map (·.1)) && flatHeights (members.map (·.2))
     let obs := (allPos shape).map fun q => regular || boxInterior shape bshape q
-    s!"spec={showInts spec} model={showInts model} fast={showInts fast} obs={showBools obs}"
+    s!"spec={showInts spec} model={showInts model} fast={showInts fast} loops={showInts loops} obs={showBools obs}"
   | "cross" => s!"elem={showInts (crossElem (a.nat "d") (a.int "r")).toList}"
   | "disk" => s!"elem={showInts (diskElem (a.nat "d") (a.nat "r")).toList}"
   | k => s!"error=unknown-kind-{k}"
